@@ -23,11 +23,14 @@ META = {
     "design_ref": "DESIGN.md §4.3 C28",
     "technique": "TLA+ registries (configuration -> value; names / keys of unseeded arrays; choice contract); TLC enumerates "
                  "configurations and choice requests; observations from real schedulers validated by TLC",
-    "level_text": "TLC enumerates 2 APIs x 3 seeds x 7 distributions x every chunking of shapes (4,), (2,3) [thorough: + (5,), (3,2), "
-                  "(2,2,2)] x 1st/2nd array of the generator (quick: 400 sampled, thorough: all) and every choice(replace=False) request "
+    "level_text": "TLC enumerates 2 APIs x 3 seeds x every distribution method (33 shared + API-specific ones, array-valued parameters, choice "
+                  "with / without replacement / probabilities / array population, permutation: 43-44 per API) x every chunking of shapes "
+                  "(4,), (2,3) [thorough: + (5,), (3,2), (2,2,2)] x 1st/2nd array of the generator (stratified sample: quick 900, thorough 12k) and every choice(replace=False) request "
                   "with population 1..5 (thorough 1..6) as integer or array under every chunking, size 0..n, both APIs, 3 seeds, shuffle "
-                  "on/off (exhaustive). Each seeded configuration is observed on sync twice, threads, re-created from a fresh generator "
-                  "(and on the multiprocessing scheduler for a subset); unseeded pairs/triples from the module-level API, "
+                  "on/off (exhaustive). For each seeded configuration ONE collection object is computed on sync twice and on threads twice (clause Recompute), and it "
+                  "is re-created from a fresh generator (clause Deterministic); for a subset one more object is computed on sync and twice on "
+                  "a process pool; k = 2, 3 successive identical calls on ONE unseeded generator object (every distribution, one- and "
+                  "multi-chunk) must have distinct names, disjoint keys and keep their own draws; unseeded pairs/triples from the module-level API, "
                   "default_rng() and RandomState() are compared by name, task keys and alone/together values; TLC decides each record.",
     "level_note": "Trusted: TLC; the value fingerprint (dtype, shape, bytes). Statistical quality, independence of the per-chunk streams "
                   "and whether two unseeded arrays have different VALUES are not decided. Multi-chunk choice(replace=False) raises the "
@@ -35,6 +38,7 @@ META = {
 }
 
 _POOLS = {}
+HOWS = ["sync", "sync2", "threads", "threads2", "fresh"]
 
 
 def _fp(a):
@@ -48,24 +52,43 @@ def _rng(api, seed):
     return da.random.default_rng(seed) if api == "Generator" else da.random.RandomState(seed)
 
 
+DIST_ARGS = {
+    "beta": (2.0, 3.0), "binomial": (10, 0.3), "chisquare": (3.0,), "exponential": (2.0,), "f": (3.0, 4.0), "gamma": (2.0, 1.5),
+    "geometric": (0.3,), "gumbel": (0.0, 1.0), "hypergeometric": (5, 6, 4), "laplace": (0.0, 1.0), "logistic": (0.0, 1.0),
+    "lognormal": (0.0, 1.0), "logseries": (0.5,), "negative_binomial": (3, 0.4), "noncentral_chisquare": (3.0, 1.0),
+    "noncentral_f": (3.0, 4.0, 1.0), "normal": (2.0, 3.0), "pareto": (2.0,), "poisson": (4.0,), "power": (2.0,), "rayleigh": (1.0,),
+    "standard_cauchy": (), "standard_exponential": (), "standard_gamma": (2.0,), "standard_normal": (), "standard_t": (3.0,),
+    "triangular": (0.0, 0.5, 1.0), "uniform": (-1.0, 1.0), "vonmises": (0.0, 1.0), "wald": (1.0, 1.0), "weibull": (2.0,), "zipf": (2.0,),
+    "multinomial": (5, [0.2, 0.3, 0.5]), "random": (), "integers": (0, 1000), "random_sample": (), "randint": (0, 1000), "tomaxint": (),
+    "random_integers": (0, 10),
+}
+
+
 def _dist_call(rng, dist, size, chunks):
+    """One creation call of the table (every call of a configuration uses the same arguments)."""
+    import numpy as np
+    import dask.array as da
     kw = {"size": size, "chunks": chunks}
-    if dist in ("random", "random_sample"):
-        return getattr(rng, dist)(**kw)
-    if dist == "normal":
-        return rng.normal(2.0, 3.0, **kw)
-    if dist == "integers":
-        return rng.integers(0, 1000, **kw)
-    if dist == "randint":
-        return rng.randint(0, 1000, **kw)
-    if dist == "uniform":
-        return rng.uniform(-1.0, 1.0, **kw)
-    if dist == "poisson":
-        return rng.poisson(4.0, **kw)
-    if dist == "standard_normal":
-        return rng.standard_normal(**kw)
-    if dist == "exponential":
-        return rng.exponential(2.0, **kw)
+    if dist in DIST_ARGS:
+        return getattr(rng, dist)(*DIST_ARGS[dist], **kw)
+    if dist == "normal_nparg":                         # a NumPy array parameter is broadcast and embedded in the graph
+        return rng.normal(np.arange(size[-1], dtype="f8"), 1.0, **kw)
+    if dist == "normal_daarg":                         # a dask array parameter
+        return rng.normal(da.from_array(np.arange(size[-1], dtype="f8"), chunks=1), 1.0, **kw)
+    is_gen = hasattr(rng, "_bit_generator")
+    if dist == "choice":
+        return rng.choice(10, size=size, chunks=chunks)
+    if dist == "choice_arraypop":
+        return rng.choice(da.arange(10, chunks=5) * 3, size=size, chunks=chunks)
+    if dist == "choice_p":
+        return rng.choice(4, size=size, chunks=chunks, p=[0.1, 0.2, 0.3, 0.4])
+    if dist == "choice_norep":                         # multi-chunk requests raise the documented NotImplementedError
+        return rng.choice(10, size=size, chunks=chunks, replace=False)
+    if dist == "choice_noshuffle" and is_gen:
+        return rng.choice(10, size=size, chunks=chunks, replace=False, shuffle=False)
+    if dist == "permutation":
+        n = int(np.prod(size))
+        return rng.permutation(da.from_array(np.arange(n).reshape(size), chunks=chunks))
     raise ValueError(dist)
 
 
@@ -81,14 +104,14 @@ def make_array(cfg, seed=None):
 def _compute(x, how):
     """how: sync | sync2 | threads | processes | fresh (the caller passes the re-created array)."""
     import dask
-    if how in ("sync", "sync2", "fresh"):
+    if how in ("sync", "sync2", "fresh", "processes-sync"):
         return x.compute(scheduler="sync")
-    if how == "threads":
+    if how in ("threads", "threads2"):
         if "t" not in _POOLS:
             from concurrent.futures import ThreadPoolExecutor
             _POOLS["t"] = ThreadPoolExecutor(3)
         return x.compute(scheduler="threads", pool=_POOLS["t"])
-    if how == "processes":
+    if how in ("processes", "processes2"):
         if "p" not in _POOLS:
             import multiprocessing as mp
             from concurrent.futures import ProcessPoolExecutor
@@ -105,13 +128,15 @@ def observe_draw(item):
     except NotImplementedError as ex:
         return {"skip": "NotImplementedError: %s" % str(ex)[:60]}
     except Exception as ex:  # noqa: BLE001
-        return {"obs": [{"how": "create", "fp": "!%s" % type(ex).__name__}], "name": ""}
+        return {"obs": [{"how": "create", "obj": 1, "fp": "!%s" % type(ex).__name__}], "name": ""}
     for how in hows:
         try:
-            y = make_array(cfg) if how == "fresh" else x
-            obs.append({"how": how, "fp": _fp(_compute(y, how))})
+            y = make_array(cfg) if how == "fresh" else x           # obj 1 = ONE collection object, obj 2 = created again
+            obs.append({"how": how, "obj": 2 if how == "fresh" else 1, "fp": _fp(_compute(y, how))})
+        except NotImplementedError as ex:
+            return {"skip": "NotImplementedError: %s" % str(ex)[:60]}
         except Exception as ex:  # noqa: BLE001 - an exception from dask is an observation
-            obs.append({"how": how, "fp": "!%s: %s" % (type(ex).__name__, str(ex)[:80])})
+            obs.append({"how": how, "obj": 2 if how == "fresh" else 1, "fp": "!%s: %s" % (type(ex).__name__, str(ex)[:80])})
     return {"obs": obs, "name": x.name}
 
 
@@ -132,15 +157,29 @@ def _unseeded_array(src, shape, chunks):
     raise ValueError(src)
 
 
+def _flat(keys):
+    for k in keys:
+        if isinstance(k, list):
+            yield from _flat(k)
+        else:
+            yield k
+
+
 def observe_unseeded(item):
     import dask
-    srcs, shape, chunks = item["srcs"], tuple(item["shape"]), tuple(tuple(c) for c in item["chunks"])
+    shape, chunks = tuple(item["shape"]), tuple(tuple(c) for c in item["chunks"])
     try:
-        arrs = [_unseeded_array(s, shape, chunks) for s in srcs]
+        if "dist" in item:                               # k identical calls on ONE unseeded generator object
+            rng = _rng(item["api"], None)
+            arrs = [_dist_call(rng, item["dist"], shape, chunks) for _ in range(item["k"])]
+        else:
+            arrs = [_unseeded_array(s, shape, chunks) for s in item["srcs"]]
         alone = [_fp(a.compute(scheduler="sync")) for a in arrs]
         together = [_fp(r) for r in dask.compute(*arrs, scheduler="sync")]
-        return {"names": [a.name for a in arrs], "keys": [sorted(str(k) for k in a.__dask_graph__()) for a in arrs],
+        return {"names": [a.name for a in arrs], "keys": [sorted(str(k) for k in _flat(a.__dask_keys__())) for a in arrs],
                 "alone": alone, "together": together}
+    except NotImplementedError as ex:
+        return {"skip": "NotImplementedError: %s" % str(ex)[:60]}
     except Exception as ex:  # noqa: BLE001
         return {"raised": "%s: %s" % (type(ex).__name__, str(ex)[:100])}
 
@@ -214,10 +253,13 @@ def add_process_observations(subset, draws, results):
             r = results[index[json.dumps(c, sort_keys=True)]]
             if "obs" not in r:
                 continue
+            how = "create"
             try:
-                r["obs"].append({"how": "processes", "fp": _fp(_compute(make_array(c), "processes"))})
+                x = make_array(c)                       # obj 3: one more collection object, computed on sync and twice on the pool
+                for how in ("processes-sync", "processes", "processes2"):
+                    r["obs"].append({"how": how, "obj": 3, "fp": _fp(_compute(x, how))})
             except Exception as ex:  # noqa: BLE001 - an exception from dask is an observation
-                r["obs"].append({"how": "processes", "fp": "!%s: %s" % (type(ex).__name__, str(ex)[:80])})
+                r["obs"].append({"how": how, "obj": 3, "fp": "!%s: %s" % (type(ex).__name__, str(ex)[:80])})
     finally:
         _close_pools()
 
@@ -233,11 +275,12 @@ def to_records(items, results, ctx=None):
             continue
         if kind == "draw":
             fps = {}
-            obs = [{"how": o["how"], "fp": 0 if o["fp"].startswith("!") else fps.setdefault(o["fp"], len(fps) + 1)} for o in r["obs"]]
+            obs = [{"how": o["how"], "obj": o["obj"], "fp": 0 if o["fp"].startswith("!") else fps.setdefault(o["fp"], len(fps) + 1)}
+                   for o in r["obs"]]
             recs.append({"id": rid, "kind": "draw", "obs": obs})
         elif kind == "unseeded":
             if "raised" in r:
-                recs.append({"id": rid, "kind": "draw", "obs": [{"how": "unseeded", "fp": 0}]})
+                recs.append({"id": rid, "kind": "draw", "obs": [{"how": "unseeded", "obj": 1, "fp": 0}]})
             else:
                 nm, ky, fp = {}, {}, {}
                 recs.append({"id": rid, "kind": "unseeded",
@@ -257,9 +300,14 @@ def parse_clauses(text):
 
 def classify(kind, payload, clause):
     if kind == "draw":
+        if clause.startswith("Recompute_"):             # one collection object, two values: the call site is the method
+            return "Recompute:%s:%s" % (payload["api"], payload["dist"].split("_")[0])
         multi = any(len(c) > 1 for c in payload["chunks"])
         return "%s:%s:%s:%s" % (clause, payload["api"], payload["dist"], "multi-chunk" if multi else "one-chunk")
     if kind == "unseeded":
+        if "dist" in payload:                            # successive calls on ONE unseeded generator object
+            one = all(len(c) == 1 for c in payload["chunks"])
+            return "%s:one-generator:%s:%s:%s" % (clause, payload["api"], payload["dist"].split("_")[0], "one-chunk" if one else "multi-chunk")
         return "%s:%s" % (clause, "+".join(sorted(set(payload["srcs"]))))
     return "%s:%s:%s:%s" % (clause, payload["api"], "array-pop" if payload["popchunks"] else "int-pop",
                             "size=n" if payload["size"] == payload["n"] else ("size=0" if payload["size"] == 0 else "0<size<n"))
@@ -309,24 +357,38 @@ def run(ctx):
     big = not ctx.quick
     consts = {"N": ctx.pick(5, 6), "Shapes": TLA(ctx.pick("{<<4>>, <<2, 3>>}", "{<<4>>, <<2, 3>>, <<5>>, <<3, 2>>, <<2, 2, 2>>}")),
               "Seeds": TLA("{0, 1, 7}")}
-    s1, c1 = ctx.model(ctx.spec("array", "RandomMC.tla"), dict(consts, Mode="design"), invariants=["DrawFoldIsGlobal", "ChoiceFoldIsGlobal"])
+    s1, c1 = ctx.model(ctx.spec("array", "RandomMC.tla"), dict(consts, Mode="design"),
+                       invariants=["DrawFoldIsGlobal", "RecomputeBlame", "ChoiceFoldIsGlobal"])
+    s4, c4 = ctx.model(ctx.spec("array", "RandomMC.tla"), dict(consts, Mode="pairs"))
     s2, c2 = ctx.model(ctx.spec("array", "RandomMC.tla"), dict(consts, Mode="draw"))
     s3, c3 = ctx.model(ctx.spec("array", "RandomMC.tla"), dict(consts, Mode="choice"), invariants=["ChoiceSatisfiable"])
-    _, (draws, _), (choices, _) = in_parallel([
+    _, (draws, _), (choices, _), (pairs, _) = in_parallel([
         lambda: ctx.tlc(s1, c1, label="design: folds = global definitions", timeout=900),
         lambda: ctx.tlc_cases(s2, c2, label="cases: seeded configurations", timeout=1800),
-        lambda: ctx.tlc_cases(s3, c3, label="cases: choice requests", timeout=1800)])
-    draws.sort(key=lambda c: json.dumps(c, sort_keys=True))
-    choices.sort(key=lambda c: json.dumps(c, sort_keys=True))
-    total = (len(draws), len(choices))
-    cap = ctx.pick(400, 10 ** 9)
-    ctx.exhaustive = len(draws) <= cap
-    if len(draws) > cap:
-        draws = ctx.rng.sample(draws, cap)
-    nproc = ctx.pick(24, 250)
-    items = [("draw", (c, ["sync", "sync2", "threads", "fresh"])) for c in draws]
+        lambda: ctx.tlc_cases(s3, c3, label="cases: choice requests", timeout=1800),
+        lambda: ctx.tlc_cases(s4, c4, label="cases: successive calls on one unseeded generator", timeout=1800)])
+    for lst in (draws, choices, pairs):
+        lst.sort(key=lambda c: json.dumps(c, sort_keys=True))
+    total = (len(draws), len(choices), len(pairs))
+    ctx.exhaustive = True
+
+    def stratified(cases, cap):
+        """Every (api, distribution) keeps its share, one-chunk and multi-chunk layouts both present."""
+        if len(cases) <= cap:
+            return cases
+        ctx.exhaustive = False
+        by = {}
+        for c in cases:
+            by.setdefault((c["api"], c["dist"], all(len(ch) == 1 for ch in c["chunks"])), []).append(c)
+        share = max(2, cap // len(by))
+        return [c for k in sorted(by) for c in ctx.rng.sample(by[k], min(share, len(by[k])))]
+    draws = stratified(draws, ctx.pick(900, 12000))
+    pairs = stratified(pairs, ctx.pick(500, 6000))
+    nproc = ctx.pick(40, 300)
+    items = [("draw", (c, HOWS)) for c in draws]
     items += [("choice", c) for c in choices]
     items += unseeded_items(ctx.rng, ctx.pick(150, 1500))
+    items += [("unseeded", c) for c in pairs]
     results = run_items(items)
     # the multiprocessing scheduler: in this (non-daemonic) process, after all forking is done
     add_process_observations([c for i, c in enumerate(draws) if i % max(1, len(draws) // nproc) == 0], draws, results)
@@ -336,16 +398,17 @@ def run(ctx):
         ctx.violation(sig, "%s on %s: %s" % (cl, kind, json.dumps(r)[:300]), {"kind": kind, "payload": payload, "clause": cl})
     ctx.sample({"draw": draws[0]})
     ctx.sample({"choice": choices[len(choices) // 2]})
-    ctx.rule = ("a case = one seeded configuration (observed on sync x2, threads, re-creation, some on processes), one choice request, "
-                "or one tuple of separately created unseeded arrays; non-trivial = everything except choice of size 0")
-    ctx.extra.update({"configurations_enumerated": total[0], "choice_requests_enumerated": total[1]})
+    ctx.rule = ("a case = one seeded configuration (ONE collection object computed on sync x2 and threads x2, re-created once, some also "
+                "on sync + process pool x2), one choice request, or one tuple of unseeded arrays (separate generators, or successive calls on "
+                "one generator object); non-trivial = everything except choice of size 0")
+    ctx.extra.update({"configurations_enumerated": total[0], "choice_requests_enumerated": total[1], "one_generator_call_tuples_enumerated": total[2]})
     ctx.assumptions = ["NumPy's bit generators are deterministic per block", "md5 of the bytes identifies a value"]
 
 
 def replay(ctx, obj):
     c = obj["case"]
     kind, payload = c["kind"], c["payload"]
-    item = ("draw", (payload, ["sync", "sync2", "threads", "fresh"])) if kind == "draw" else (kind, payload)
+    item = ("draw", (payload, HOWS)) if kind == "draw" else (kind, payload)
     res = pmap(_work_chunk, [[item]], procs=2, chunk=1, always=True)[0]
     if kind == "draw":
         add_process_observations([payload], [payload], res)
@@ -360,6 +423,11 @@ SELF_DRAWS = [
     {"api": "Generator", "seed": 7, "dist": "normal", "shape": [2, 3], "chunks": [[1, 1], [2, 1]], "nth": 2},
     {"api": "RandomState", "seed": 1, "dist": "random_sample", "shape": [4], "chunks": [[1, 3]], "nth": 1},
     {"api": "RandomState", "seed": 0, "dist": "poisson", "shape": [2, 3], "chunks": [[2], [1, 2]], "nth": 1},
+    {"api": "Generator", "seed": 7, "dist": "choice", "shape": [4], "chunks": [[2, 2]], "nth": 1},
+    {"api": "Generator", "seed": 1, "dist": "choice_norep", "shape": [4], "chunks": [[4]], "nth": 1},
+    {"api": "Generator", "seed": 0, "dist": "choice_arraypop", "shape": [2, 3], "chunks": [[1, 1], [3]], "nth": 2},
+    {"api": "RandomState", "seed": 7, "dist": "choice", "shape": [4], "chunks": [[1, 3]], "nth": 1},
+    {"api": "Generator", "seed": 0, "dist": "permutation", "shape": [4], "chunks": [[2, 2]], "nth": 1},
 ]
 SELF_CHOICES = [
     {"api": "Generator", "seed": 0, "n": 4, "size": 4, "popchunks": [2, 2], "outsplit": False, "shuffle": True},
@@ -376,11 +444,16 @@ SELF_UNSEEDED = [
     {"srcs": ["one-generator", "one-generator", "one-generator"], "shape": [2, 3], "chunks": [[2], [3]]},
     {"srcs": ["default_rng", "default_rng"], "shape": [4], "chunks": [[4]]},
     {"srcs": ["RandomState", "module-normal"], "shape": [4], "chunks": [[1, 3]]},
+    {"api": "Generator", "dist": "choice", "shape": [4], "chunks": [[4]], "k": 2},
+    {"api": "Generator", "dist": "choice_norep", "shape": [4], "chunks": [[4]], "k": 3},
+    {"api": "Generator", "dist": "choice", "shape": [4], "chunks": [[2, 2]], "k": 2},
+    {"api": "Generator", "dist": "normal", "shape": [4], "chunks": [[4]], "k": 2},
+    {"api": "RandomState", "dist": "choice", "shape": [4], "chunks": [[4]], "k": 2},
 ]
 
 
 def _selftest_items():
-    return ([("draw", (c, ["sync", "sync2", "threads", "fresh"])) for c in SELF_DRAWS] + [("choice", c) for c in SELF_CHOICES]
+    return ([("draw", (c, HOWS)) for c in SELF_DRAWS] + [("choice", c) for c in SELF_CHOICES]
             + [("unseeded", c) for c in SELF_UNSEEDED])
 
 
@@ -390,7 +463,13 @@ MUTANTS = {   # name -> (function of dask.array.random, old text, new text)
     "chunk-state-not-seeded": ("_apply_random", "state = RandomState(state_data)", "state = RandomState()"),
     "choice-replace-flag-dropped": ("_choice_rng", "replace=replace", "replace=True"),
     "choice-multichunk-guard-dropped": ("_choice_validate_params", "if not replace and len(chunks[0]) > 1:", "if False:"),
+    # reverts 559b509: the task draws from the bit generator object held by the graph, in place
+    "choice-draws-from-graph-bitgen-in-place": ("_choice_rng", "_rng_from_bitgen(copy.deepcopy(state_data))", "_rng_from_bitgen(state_data)"),
+    # successive calls do not advance the generator: the same children are spawned every time
+    "spawn-does-not-advance-generator": ("_spawn_bitgens", "seeds = bitgen._seed_seq.spawn(n_bitgens)",
+                                         "seeds = np.random.SeedSequence(bitgen._seed_seq.entropy, spawn_key=bitgen._seed_seq.spawn_key).spawn(n_bitgens)"),
 }
+EXPECT = {"choice-draws-from-graph-bitgen-in-place": "Recompute:Generator:choice", "spawn-does-not-advance-generator": "NamesDistinct:one-generator:Generator"}
 
 
 def _mutant_child(name):
@@ -433,8 +512,9 @@ def selftest(ctx):
     ok &= not base
     for nm in names[1:]:
         new = sorted(sigs.get(nm, set()) - base)
-        print("mutant %s: %s (signatures: %s)" % (nm, "DETECTED" if new else "MISSED", new[:3]))
-        ok &= bool(new)
+        hit = bool(new) and (nm not in EXPECT or any(x.startswith(EXPECT[nm]) for x in new))
+        print("mutant %s: %s (signatures: %s)" % (nm, "DETECTED" if hit else "MISSED", new[:4]))
+        ok &= hit
     clean = [dict(r, id="c" + r["id"]) for r in allrecs if owner[r["id"]][0] is None and r["kind"] == "draw"][:2]
     bad = [dict(r, id="x" + r["id"], obs=r["obs"][:-1] + [dict(r["obs"][-1], fp=r["obs"][-1]["fp"] + 1)]) for r in clean]
     rj = ctx.tlc_validate(spec, clean + bad, cfg)
